@@ -21,7 +21,8 @@ RULE = ("cases = Aggregate / AggregateVerify / FastAggregateVerify calls on the 
         "n = 1..6 (thorough ..32) signers, repeated keys, repeated messages, keys sk and r-sk together, permutations and random bracketings of "
         "Aggregate, and every single-element perturbation: drop / duplicate / substitute a signer, key or message, swap two messages, aggregate "
         "over a subset, negated aggregate, aggregate + twist torsion point, bit flip, length mismatches, ([], [], sig), ([], [], infinity), "
-        "invalid key at first / middle / last position. distinct = distinct call; non-trivial = n >= 2 signers or a perturbed / malformed input")
+        "invalid key at first / middle / last position. distinct = distinct call; non-trivial = n >= 2 signers or a perturbed / malformed input"
+        " Signer sets of 257 (quick) / 257, 300, 513 (thorough) for AggregateVerify (honest, duplicate message, missing key), FastAggregateVerify and Aggregate.")
 ASSUMPTIONS = ["FastAggregateVerify with individually valid keys that sum to the identity is expected False (IETF CoreVerify -> KeyValidate)",
                "Aggregate on 96-byte entries that do not decode: any raised exception is accepted, returned bytes are not"]
 R = params.BLS_R
